@@ -26,6 +26,8 @@ def run(repo, rep):
              'keyed (command_field, code); value from the row\'s type and description; every row registered in parameter order', 3)
     rep.rule('C18.W2', 'lookup: specific entry when a command is given and the entry exists, else general, else UNKNOWN; five '
              'flags are equalities with five distinct literals; int() returns the code', 3)
+    rep.rule('C18.W4', 'service-specific rows only register codes the standard defines for that service (unknown codes stay '
+             'failures)', 4)
     rep.rule('C18.W3', 'partition of [0, FFFFH] per response class: every interval has one of the five types (totality), '
              '0000H Success, pending codes Pending, specific beats general, no conflicting duplicate rows', 12)
 
@@ -116,7 +118,8 @@ def run(repo, rep):
         else:
             probs.append('row code not tested for being a (first, last) tuple')
             continue
-        if a != want:
+        cmd_ok = a[4] == want[4] or (a[4].startswith('ITEM(') and want[4] in a[4])   # one call per class of a grouped row
+        if a[:4] != want[:4] or not cmd_ok:
             probs.append('row fields passed as %s, add_status expects (code, type, description, end, command) = %s' % (a, want))
     called = any(isinstance(n, ast.Expr) and isinstance(n.value, ast.Call) and norm(n.value.func) == 'register_statuses'
                  for n in st.tree.body)
@@ -199,21 +202,20 @@ def run(repo, rep):
     general: List[Tuple[int, int, str, int]] = []
     specific: Dict[str, List[Tuple[int, int, str, int]]] = {}
     bad_rows = []
-    for i, row in enumerate(rows):
-        if not (isinstance(row, tuple) and len(row) == 4):
+    from ..svc_model import status_rows
+    for lo, hi, typ, cmd, i in status_rows(repo):
+        if isinstance(cmd, tuple) and cmd[0] == 'malformed':
             bad_rows.append('row %d malformed' % i)
             continue
-        code, typ, desc, cmd = row
-        lo, hi = (code if isinstance(code, tuple) else (code, code))
         if not (isinstance(lo, int) and isinstance(hi, int) and 0 <= lo <= hi <= 0xFFFF):
-            bad_rows.append('row %d: code range %r outside 16 bits or reversed' % (i, code))
+            bad_rows.append('row %d: code range %r-%r outside 16 bits or reversed' % (i, lo, hi))
             continue
         if typ not in TYPES:
             bad_rows.append('row %d (%04X): type %r is none of %s' % (i, lo, typ, TYPES))
         if cmd is None:
             general.append((lo, hi, typ, i))
-        elif isinstance(cmd, ClassRef):
-            specific.setdefault(cmd.name, []).append((lo, hi, typ, i))
+        elif isinstance(cmd, str):
+            specific.setdefault(cmd, []).append((lo, hi, typ, i))
         else:
             bad_rows.append('row %d: command %r is not a message class' % (i, cmd))
     rep.check(not bad_rows, 'C18.W3', 'statuses:KNOWN_STATUSES:rows', st.relpath, '%d rows well-formed' % len(rows), '; '.join(bad_rows))
@@ -272,6 +274,18 @@ def run(repo, rep):
         rep.check(not probs, 'C18.W3', 'statuses:classification[%s]' % (cname or 'no command'), st.relpath,
                   '%d intervals cover 0000-FFFF: %s' % (n_int, ', '.join('%s %d' % kv for kv in sorted(summary.items(), key=lambda kv: str(kv[0])))),
                   '; '.join(sorted(set(probs))))
+    # W4: a service-specific row must be a status the standard defines for that service (else the code is unknown
+    # for that service and has to be classified Failure through the general path)
+    from ..oracles import ps3_7
+    for cname, tab in sorted(specific.items()):
+        allowed = ps3_7.SERVICE_STATUS.get(cname, []) + ps3_7.GENERAL_STATUS
+        probs = []
+        for lo, hi, typ, i in tab:
+            if not any(a0 <= lo and hi <= a1 for a0, a1 in allowed):
+                probs.append('row %d registers %04X%s as %s for %s, which PS3.4/PS3.7 do not define for that service: an unknown '
+                             'code must be a failure' % (i, lo, ('-%04X' % hi) if hi != lo else '', typ, cname))
+        rep.check(not probs, 'C18.W4', 'statuses:KNOWN_STATUSES:service-codes[%s]' % cname, st.relpath,
+                  '%d service-specific rows are codes of that service' % len(tab), '; '.join(probs))
     for cname in specific:
         if cname not in resp:
             rep.bad('C18.W3', 'statuses:KNOWN_STATUSES:%s' % cname, st.relpath, 'rows registered for %s, which is not a response class with a status' % cname)
